@@ -111,7 +111,10 @@ def finish(rep: Report) -> int:
         rc = 1
     if unknown and len(unknown) > n:
         print(f"  ({len(unknown)} violating cases in total; {n} replay files written)")
-    write_evidence(rep, len(unknown), sorted(reported_known))
+    if not rep.extra.get("replay_of"):
+        # a --replay run re-executes ONE recorded scenario: it must not overwrite the coverage
+        # record of the last full run
+        write_evidence(rep, len(unknown), sorted(reported_known))
     return rc
 
 
